@@ -25,7 +25,7 @@ func init() {
 		Level: "exploration",
 		Rule: "case = (K, OP and/or OPc, RAND, AUTN from (SQN, AMF field), MCC, MNC of 2|3 digits, SUPI of 5..15 digits, ciphering id 0..3, integrity id 0..3); " +
 			"structured corners by index: all-zero / all-FF / single-bit K and RAND, upper/lower-case hex, leading-zero MNC. Each case runs the real derivation three times (OP only, OPc only, both) " +
-			"and compares RES*, K_AMF, K_NASint, K_NASenc with ref/sec. distinct = hash of all inputs; every case is non-trivial",
+			"and compares RES*, K_AMF, K_NASint, K_NASenc with ref/sec. Further families by case index: one case in four a SECOND challenge on the same context (RAND / SQN kept or renewed, K sometimes re-provisioned); one in 32 a RAND constructed so that AK, CK or IK is all zero; KDF inputs that read as text; inputs resembling the previous case; one subscription record reused. distinct = hash of all inputs; every case is non-trivial",
 		Assumptions: []string{
 			"serving network name is built as stgutg.RegisterUE builds it (5G:mnc<3 digits>.mcc<3 digits>.3gppnetwork.org)",
 			"ABBA 0x0000; SUPI digits are P0 of the K_AMF derivation",
